@@ -27,6 +27,7 @@ RULE = ('Example multisets are built from 1-6 shape templates (1-5 fragments '
 RULE += ' ' + "Also: 'matched in full' is re.fullmatch; examples that are another example plus a final line break; wide rows; zero-count dictionary keys; punctuation runs sharing exactly one of two extra letters; use_sampling=False Sizes."
 RULE += ' ' + 'Round 7 (shared generator): invisible non-white-space characters (U+FEFF, U+200B, U+2060) at the ends of examples.'
 RULE += ' ' + 'Round 8 (shared generator): genuine values that look like the text form of a null (nan, None, NaT, <NA>); letters followed by combining marks.'
+RULE += ' ' + "variableLengthFrags is not combined with examples of more than 24 alternating fragments (applies to all rexpy checks): the dozens of optional fragments rexpy then writes make Python's own matcher exponential on long non-matching strings, which would hang the oracle, not rexpy."
 ASSUMPTIONS = ['"matched in full" is re.fullmatch (until session 3 it was '
                'read as re.match on the anchored expression, which hid the '
                'defect repaired by 16bd489)']
